@@ -19,7 +19,7 @@ EXT = {
     "C15": {"technique": " + TypeChecker dispatch table regenerated from source by tools/gen_walkers.py and proved equal to what the Gallina model assumes (Props/C15_dispatch.v)"},
     "C17": {"technique": " + LinearChecker dispatch table regenerated from source by tools/gen_walkers.py and proved equal to what the Gallina model assumes (Props/C17_dispatch.v)"},
     "C18": {
-        "technique": " + Coq proofs about Gallina models of the codec's inner layers: expression printer/parser over s-expressions with the lexer (parse (print e) = Some (norm e), norm preserves eval; Props/C18_expr.v), plan text printer/parser incl. the decimal digit codec (Props/C18_plan.v), effect layer (Props/C18_effect.v), each tied to the real ConverterToPDDLString / UPPDDLReader / PDDLWriter.get_plan / parse_plan_string by correspondence (harness/ext/c18_*.py)",
+        "technique": " + Coq proofs about Gallina models of the codec's inner layers: expression printer/parser over s-expressions with the lexer (parse (print e) = Some (norm e), norm preserves eval; Props/C18_expr.v), plan text printer/parser incl. the decimal digit codec (Props/C18_plan.v), effect layer and whole instantaneous actions (Props/C18_effect.v: C18_effect_roundtrip, C18_effect_text_roundtrip, C18_action_roundtrip, C18_action_same_behaviour), each tied to the real ConverterToPDDLString / UPPDDLReader / PDDLWriter.get_plan / parse_plan_string by correspondence (harness/ext/c18_*.py)",
         "note": " The expression, lexical, number-token, plan-text (and effect) layers of the PDDL codec are modelled and their round trips proved for all inputs of stated fragments; the domain/problem structure layer (types, declarations, action blocks, init, metric) is still only validated by the bisimulation checker, which is why the level stays translation_validation.",
     },
     "C19": {
@@ -33,7 +33,7 @@ EXT = {
     "C26": {"technique": " + Coq model and proofs of the back conversion STN -> time-triggered plan on top of C25's DeltaSTN model (Props/C26_back.v) with correspondence against the real conversion (harness/ext/c26_back.py)"},
     "C28": {
         "technique": " + Gallina model of the TimedToSequential compiler tied to the real compiler by correspondence (harness/ext/c28_whole.py) and Coq proofs about the back-converted plan (chained, pairwise disjoint steps, accepted durations; Props/C28_whole.v)",
-        "note": " Whole-plan validity is proved only in part (C28_whole_plan_partial; the full statement is the Definition C28_whole_plan_goal); three refuted instances are recorded findings (bounded type violated between start and end, empty duration interval, lifted alias).",
+        "note": " Whole-plan validity (tt_valid of the back-converted plan in the reference dense-time semantics) is PROVED for problems mixing instantaneous actions with durative actions whose effects are all at the end (C28_whole_plan_no_start_read), with the two-happening step lemma for start effects that are not read (C28_whole_step_start_not_read); the general statement with start-effect substitution is the Definition C28_whole_plan_goal and stays validated; its refuted instances are recorded findings (bounded type violated between start and end, empty duration interval, forall effect, three aliasing shapes).",
     },
 }
 
